@@ -1133,3 +1133,132 @@ Proof.
       destruct Hform as [Hi|(w & f & ->)]; [destruct b; try discriminate|]; reflexivity. }
     rewrite E. eapply decimal_pred_ok; eassumption.
 Qed.
+
+Lemma pobs_err_rejected o : pobs_match PErr o = true -> is_rejected o = true.
+Proof. destruct o; cbn; congruence. Qed.
+
+Lemma holds_based (neg : bool) p w a o :
+  kf_name (LReal neg (BBased p w) a) = None -> predicted (LReal neg (BBased p w) a) o = true ->
+  C13_spec (LReal neg (BBased p w) a) o.
+Proof.
+  intros Hkf Hp. cbn [kf_name] in Hkf.
+  destruct (kind_of_ann a) as [k|] eqn:Hk; [discriminate|]. destruct neg; [discriminate|].
+  apply kind_of_ann_none in Hk. subst a.
+  apply predicted_spec in Hp. destruct Hp as (po & Hin & Hm).
+  unfold C13_spec, expected, expected_real.
+  destruct (body_gram (BBased p w)) eqn:Hg; [|exact I|exact I].
+  cbn [is_int_body negb andb frac_exp]. unfold denote.
+  cbn [impl_preds signed_suffix kind_of_ann] in Hin.
+  destruct (body_Q (BBased p w)) as [q|] eqn:Hq; [|exact I]. cbn [option_map kind_of_ann].
+  destruct (body_Z (BBased p w)) as [n|] eqn:Hz.
+  - cbn [is_based spec_holds]. unfold i64_fits in Hin.
+    destruct (fits i64sb n) eqn:Hf; destruct Hin as [<-|[]].
+    + left. split; [reflexivity|]. cbn [pobs_match] in Hm. destruct o as [v'| | | |]; try discriminate.
+      apply kval_eqb_KS_Zx in Hm. congruence.
+    + right. split; [reflexivity|]. right. apply pobs_err_rejected. exact Hm.
+  - exfalso. cbn [body_Q body_Z] in Hq, Hz. destruct (base_of_prefix p); [|discriminate].
+    rewrite Hz in Hq. discriminate.
+Qed.
+
+Lemma holds_rat (neg : bool) ns ds a o :
+  kf_name (LReal neg (BRat ns ds) a) = None -> predicted (LReal neg (BRat ns ds) a) o = true ->
+  C13_spec (LReal neg (BRat ns ds) a) o.
+Proof.
+  intros Hkf Hp. cbn [kf_name] in Hkf. destruct neg; [discriminate|].
+  apply predicted_spec in Hp. destruct Hp as (po & Hin & Hm).
+  unfold C13_spec, expected, expected_real.
+  destruct (body_gram (BRat ns ds)) eqn:Hg; [|exact I|exact I].
+  destruct a as [|k|k|k]; cbn [andb negb is_int_body frac_exp]; try exact I;
+    try (destruct (dval 10 ns), (dval 10 ds); exact I).
+  cbn [impl_preds signed_suffix] in Hin.
+  destruct (dval 10 ns) as [n|]; [|exact I]. destruct (dval 10 ds) as [d|]; [|exact I].
+  destruct (andb (i64_fits n) (i64_fits d)) eqn:Hf; [destruct Hin|].
+  destruct Hin as [<-|[]]. apply pobs_err_rejected in Hm.
+  destruct (d =? 0); cbn [spec_holds]; [exact Hm|].
+  right. split; [exact Hm|]. apply andb_false_iff in Hf. exact Hf.
+Qed.
+
+Lemma holds_sci (neg : bool) w f e sg ew ef a o :
+  kf_name (LReal neg (BSci w f e sg ew ef) a) = None -> C13_spec (LReal neg (BSci w f e sg ew ef) a) o.
+Proof.
+  intros Hkf. cbn [kf_name] in Hkf.
+  destruct ef as [efs|]; [|destruct f; discriminate].
+  unfold C13_spec, expected, expected_real.
+  destruct (body_gram _); [|exact I|exact I].
+  destruct (andb _ _); [exact I|]. cbn [frac_exp]. exact I.
+Qed.
+
+Lemma zero_nearest (s : bool) : is_nearest_bits f64 (encode_bits f64 (FFin s 0 0)) (0 # 1) = true.
+Proof. destruct s; vm_compute; reflexivity. Qed.
+
+Lemma part_ok_form b : part_ok b = true -> body_gram b = GOk /\ (is_int_body b = true \/ exists w f, b = BFloat w f).
+Proof.
+  unfold part_ok. destruct b; try discriminate; destruct (body_gram _); try discriminate; intros _; split; try reflexivity.
+  - left; reflexivity.
+  - right; eauto.
+Qed.
+
+Lemma part_pred_ok b q (neg : bool) v :
+  part_ok b = true -> body_Q b = Some q -> In v (impl_f64_abs b) ->
+  exists v', decode_bits f64 (encode_bits f64 (fneg_if neg v)) = Some v' /\ rounds_to f64 v' (Qneg_if neg q).
+Proof.
+  intros Hpo Hq Hv. destruct (part_ok_form b Hpo) as [_ Hform].
+  assert (Hr : round_ne f64 q = Some v).
+  { destruct Hform as [Hi|(w & f & ->)]; [destruct b; try discriminate|]; cbn [impl_f64_abs] in Hv;
+      rewrite Hq in Hv; apply In_opt_list; exact Hv. }
+  destruct (f64_pred_ok q v neg Hr) as (bits & v' & Hb & Hd & Hn & Hv' & Hnan).
+  exists v'. rewrite Hb. split; [exact Hd|]. apply is_nearest_sound; [exact f64_ok|exact Hn].
+Qed.
+
+Lemma holds_imag (neg : bool) b u o :
+  predicted (LImag neg b u) o = true -> C13_spec (LImag neg b u) o.
+Proof.
+  intros Hp. apply predicted_spec in Hp. destruct Hp as (po & Hin & Hm).
+  unfold C13_spec, expected.
+  destruct (andb (part_ok b) _) eqn:Hpo; [|exact I].
+  apply andb_true_iff in Hpo. destruct Hpo as [Hpo _].
+  unfold denote. destruct (body_Q b) as [q|] eqn:Hq; [|exact I]. cbn [option_map spec_holds].
+  cbn [impl_preds] in Hin. apply in_map_iff in Hin. destruct Hin as (v & <- & Hv).
+  cbn [pobs_match] in Hm. destruct o as [v'| | | |]; try discriminate.
+  apply kval_eqb_KS_pair in Hm. subst v'.
+  destruct (part_pred_ok b q neg v Hpo Hq Hv) as (vi & Hdi & Hri).
+  pose proof (zero_nearest neg) as Hz. unfold is_nearest_bits in Hz.
+  destruct (decode_bits f64 (encode_bits f64 (FFin neg 0 0))) as [vz|] eqn:Hdz; [|discriminate].
+  exists (encode_bits f64 (FFin neg 0 0)), (encode_bits f64 (fneg_if neg v)), vz, vi.
+  split; [reflexivity|]. split; [exact Hdz|]. split; [exact Hdi|]. split; [|exact Hri].
+  apply is_nearest_sound; [exact f64_ok|exact Hz].
+Qed.
+
+Lemma holds_cplx re isg im u o :
+  predicted (LCplx false re isg im u) o = true -> C13_spec (LCplx false re isg im u) o.
+Proof.
+  intros Hp. apply predicted_spec in Hp. destruct Hp as (po & Hin & Hm).
+  unfold C13_spec, expected.
+  destruct (andb (andb (part_ok re) (part_ok im)) _) eqn:Hpo; [|exact I].
+  apply andb_true_iff in Hpo. destruct Hpo as [Hpo _]. apply andb_true_iff in Hpo. destruct Hpo as [Hre Him].
+  unfold denote. destruct (body_Q re) as [qr|] eqn:Hqr; [|exact I].
+  destruct (body_Q im) as [qi|] eqn:Hqi; [|exact I]. cbn [option_map spec_holds].
+  cbn [impl_preds] in Hin. apply in_flat_map in Hin. destruct Hin as (r & Hr & Hin).
+  apply in_map_iff in Hin. destruct Hin as (i & <- & Hi).
+  cbn [pobs_match] in Hm. destruct o as [v'| | | |]; try discriminate.
+  apply kval_eqb_KS_pair in Hm. subst v'.
+  destruct (part_pred_ok re qr false r Hre Hqr Hr) as (vr & Hdr & Hrr).
+  destruct (part_pred_ok im qi (xorb false (String.eqb isg "-")) i Him Hqi Hi) as (vi & Hdi & Hri).
+  rewrite ?Bool.xorb_false_l in *.
+  exists (encode_bits f64 (fneg_if false r)), (encode_bits f64 (fneg_if (String.eqb isg "-") i)), vr, vi.
+  split; [reflexivity|]. split; [exact Hdr|]. split; [exact Hdi|]. split; [exact Hrr|exact Hri].
+Qed.
+
+(* Outside the known-finding classes, everything the faithful model of the code predicts satisfies the property. *)
+Theorem holds_outside_classes l o : kf_name l = None -> predicted l o = true -> C13_spec l o.
+Proof.
+  intros Hkf Hp. destruct l as [neg b a|neg b u|rneg re isg im u].
+  - destruct b as [w|w f|w f e sg ew ef|p w|ns ds].
+    + apply holds_decimal; [left; reflexivity|exact Hkf|exact Hp].
+    + apply holds_decimal; [right; eauto|exact Hkf|exact Hp].
+    + apply holds_sci; exact Hkf.
+    + apply holds_based; assumption.
+    + apply holds_rat; assumption.
+  - apply holds_imag; exact Hp.
+  - destruct rneg; [discriminate|]. apply holds_cplx; exact Hp.
+Qed.
